@@ -40,6 +40,13 @@ CHECKS = {
             'compile every object compiled so far must behave like a fresh compile_string on a probe set',
             'behaviour is observed on generated probe values (encode bytes / error text, decode value, truncated decode)',
             'stateful property-based testing (Hypothesis RuleBasedStateMachine), differential against a fresh compile'),
+    'C14': ('hypothesis', 'exploration',
+            'fixture corpus (tests/files/**/*.asn) + generated modules, tokenised by an independent lexer and re-laid-out '
+            'with drawn white-space/comments at token boundaries incl. inside multi-word keywords: parse results and '
+            'accept/reject are equal across layouts; comment delimiters inside string literals stay literal; with an '
+            'illegal token injected both layouts blame the same token and report the line it is on',
+            'trusts vlib/lexer.py to find token boundaries (unlexable texts are skipped and counted)',
+            'metamorphic property-based testing (Hypothesis) with an independent lexer, fault injection for error positions'),
     'C15': ('hypothesis', 'exploration',
             'generated modules x values, ber/der: decode_with_length(m+tail) == (decode(m), len(m)); '
             'decode_length on every prefix of the header region == len(m) iff the prefix holds the complete '
